@@ -139,6 +139,8 @@ impl<K, V> Table<K, V> {
                 // safety: `self` is a reference to the old table. We got that under the given Guard.
                 // Since we have not yet dropped that guard, _this_ table has not been garbage collected,
                 // and so the _later_ table in `next_table`, _definitely_ hasn't.
+                #[cfg(flurry_verif)]
+                crate::verif::event(crate::verif::Ev::ForwardedFind, 0, 0);
                 let mut table = unsafe { self.next_table(guard).deref() };
 
                 loop {
